@@ -961,7 +961,8 @@ def unroll_literal_for_loops(fn_node) -> int:
                 if len(st.body) > 6 or any(isinstance(n, (ast.Break, ast.Continue, ast.Return, ast.Lambda, ast.FunctionDef, ast.Yield)) for n in body_nodes):
                     continue
                 loop_vars = {var} | ({kvar} if kvar else set())
-                if any(isinstance(n, ast.Name) and n.id in loop_vars and not isinstance(n.ctx, ast.Load) for n in body_nodes):
+                rebinds = any(isinstance(n, ast.Name) and n.id == var and not isinstance(n.ctx, ast.Load) for n in body_nodes)
+                if kvar and any(isinstance(n, ast.Name) and n.id == kvar and not isinstance(n.ctx, ast.Load) for n in body_nodes):
                     continue
                 inside = sum(1 for n in body_nodes if isinstance(n, ast.Name) and n.id in loop_vars) + len(loop_vars)
                 if sum(all_names.get(v_, 0) for v_ in loop_vars) != inside:
@@ -973,7 +974,19 @@ def unroll_literal_for_loops(fn_node) -> int:
                     m = {var: e}
                     if kvar:
                         m[kvar] = ast.Constant(value=k_)
-                    one = [Sub(m).visit(copy.deepcopy(s_)) for s_ in st.body]
+                    if rebinds:
+                        # the body re-binds the loop variable (``if np.isscalar(b): b = b * ones``): each copy works on its
+                        # own variable initialised with the element
+                        own = f"{var}__u{k_ + 1}"
+                        while own in taken_names:
+                            own += "_"
+                        taken_names.add(own)
+                        m.pop(var)
+                        body_k = [Sub(m).visit(copy.deepcopy(s_)) for s_ in st.body]
+                        _rename_names(body_k, {var: own})
+                        one = [ast.copy_location(ast.Assign(targets=[ast.Name(id=own, ctx=ast.Store())], value=copy.deepcopy(e)), st)] + body_k
+                    else:
+                        one = [Sub(m).visit(copy.deepcopy(s_)) for s_ in st.body]
                     if k_ > 0 and temps:
                         ren = {}
                         for t_ in temps:
@@ -1828,6 +1841,9 @@ def normalise(prog: Program) -> Tuple[Program, List[str]]:
     if changed_alias:
         trees = {m.relpath: m.tree for m in prog.modules.values()}
         prog = Program(prog.root, override_trees=trees)
+        # unrolled loops may have produced lists built in instalments / literal tuples: one more aggregate pass
+        prog, agg2 = flatten_aggregates(prog)
+        log += [x for x in agg2 if x not in log]
     # shape normalisation of the candidate filter (the stage recogniser expects one result variable and one exit)
     try:
         from .roles import Roles
